@@ -60,7 +60,52 @@ type LinearSpec struct {
 	// BorrowingCallee: callee that takes a handle-typed argument without
 	// consuming it (frozen table).
 	BorrowingCallee func(callee *ssa.Function, common *ssa.CallCommon) bool
+	// ParamsBorrowed: functions whose handle-typed parameters are borrowed.
+	ParamsBorrowed func(fn *ssa.Function) bool
+	// RecvFieldsOwned: for a method, the receiver fields (of handle type)
+	// that the method owns and must consume exactly once (tier 2).
+	RecvFieldsOwned func(fn *ssa.Function) []*types.Var
+	// SelfHandle: the method owns a pseudo handle for the receiver itself,
+	// consumed by calling SelfConsumer on the receiver or by passing the
+	// receiver on as a handle.
+	SelfHandle   func(fn *ssa.Function) bool
+	SelfConsumer func(callee *ssa.Function) bool
+	// IsEntry: leaks of receiver-field handles are reported only in entry
+	// points (the consuming interface methods); other methods are helpers
+	// whose effect is summarised and applied at their call sites.
+	IsEntry func(fn *ssa.Function) bool
+	// ConditionalTransfer: a call that consumes its handle arguments unless
+	// its boolean result #1 is true (Buffer.applyErrorHandler's shouldRetry).
+	ConditionalTransfer func(cc *ssa.CallCommon) bool
+	// ReturnKeeps: at this return the function legitimately keeps handle h
+	// unconsumed (applyErrorHandler returning shouldRetry = true).
+	ReturnKeeps func(fn *ssa.Function, r *ssa.Return, h ssa.Value) bool
+	// UntrackedResult: results of this callee are shared / reference counted.
+	UntrackedResult func(callee *ssa.Function) bool
 }
+
+// fakeHandle stands for an owned receiver field (or the receiver itself).
+type fakeHandle struct {
+	fn    *ssa.Function
+	field *types.Var // nil = the receiver itself
+}
+
+func (f *fakeHandle) Name() string {
+	if f.field == nil {
+		return "receiver"
+	}
+	return "field " + f.field.Name()
+}
+func (f *fakeHandle) String() string { return f.Name() }
+func (f *fakeHandle) Type() types.Type {
+	if f.field == nil {
+		return f.fn.Params[0].Type()
+	}
+	return f.field.Type()
+}
+func (f *fakeHandle) Parent() *ssa.Function         { return f.fn }
+func (f *fakeHandle) Referrers() *[]ssa.Instruction { return nil }
+func (f *fakeHandle) Pos() token.Pos                { return f.fn.Pos() }
 
 type linReport struct {
 	fn    *ssa.Function
@@ -79,6 +124,11 @@ type linFuncResult struct {
 	reports  []linReport
 	// claims[i]: closure consumes free variable i (cell of handle type)
 	claims map[int]bool
+	// tier 2 summaries for helper methods: receiver fields (and the self
+	// handle) consumed on every normal exit
+	fieldMust map[*types.Var]bool
+	selfMust  bool
+	partial   []*fakeHandle
 	owners map[string]int // types stored into (for the owner table)
 }
 
@@ -86,6 +136,41 @@ type linAnalysis struct {
 	prog    *Program
 	spec    *LinearSpec
 	results map[*ssa.Function]*linFuncResult
+	// per-function context (tier 2)
+	curFn       *ssa.Function
+	curFields   map[*types.Var]*fakeHandle
+	curSelf     *fakeHandle
+	consumeRecv func(env linEnv, v ssa.Value, at token.Pos, what string) bool
+}
+
+// recvFieldHandle: v is a load of (or the address of) an owned receiver field.
+func (la *linAnalysis) recvFieldHandle(v ssa.Value) *fakeHandle {
+	if la.curFields == nil {
+		return nil
+	}
+	var fa *ssa.FieldAddr
+	switch x := v.(type) {
+	case *ssa.UnOp:
+		if x.Op != token.MUL {
+			return nil
+		}
+		fa, _ = x.X.(*ssa.FieldAddr)
+	case *ssa.FieldAddr:
+		fa = x
+	}
+	if fa == nil || len(la.curFn.Params) == 0 || fa.X != ssa.Value(la.curFn.Params[0]) {
+		return nil
+	}
+	f := fieldOf(fa)
+	return la.curFields[f]
+}
+
+// isReceiver: v is the receiver (possibly converted to an interface).
+func (la *linAnalysis) isReceiver(v ssa.Value) bool {
+	if la.curFn == nil || (la.curFields == nil && la.curSelf == nil) || len(la.curFn.Params) == 0 {
+		return false
+	}
+	return stripConv(v) == ssa.Value(la.curFn.Params[0])
 }
 
 func newLinear(p *Program, spec *LinearSpec) *linAnalysis {
@@ -121,6 +206,9 @@ func (la *linAnalysis) resolve(v ssa.Value) ssa.Value {
 			if x.Op == token.MUL {
 				if la.isCell(x.X) {
 					return x.X
+				}
+				if fh := la.recvFieldHandle(x); fh != nil {
+					return fh
 				}
 				return nil
 			}
@@ -158,6 +246,8 @@ func (la *linAnalysis) resolve(v ssa.Value) ssa.Value {
 				return x
 			}
 			return nil
+		case *fakeHandle:
+			return x
 		default:
 			return nil
 		}
@@ -218,9 +308,32 @@ func (la *linAnalysis) analyze(fn *ssa.Function) *linFuncResult {
 		res.reports = append(res.reports, linReport{fn: fn, kind: kind, h: h, at: at, def: h.Pos(), descr: descr})
 	}
 
+	// per-function context (saved and restored: analyze recurses into closures)
+	saveFn, saveFields, saveSelf, saveCR := la.curFn, la.curFields, la.curSelf, la.consumeRecv
+	defer func() { la.curFn, la.curFields, la.curSelf, la.consumeRecv = saveFn, saveFields, saveSelf, saveCR }()
+	la.curFn, la.curFields, la.curSelf = fn, nil, nil
 	entry := linEnv{}
-	if la.spec.ParamsOwned {
-		for _, p := range fn.Params {
+	if la.spec.RecvFieldsOwned != nil && fn.Signature.Recv() != nil {
+		if fs := la.spec.RecvFieldsOwned(fn); len(fs) > 0 {
+			la.curFields = map[*types.Var]*fakeHandle{}
+			for _, f := range fs {
+				h := &fakeHandle{fn: fn, field: f}
+				la.curFields[f] = h
+				entry[h] = stO
+				res.handles++
+			}
+		}
+	}
+	if la.spec.SelfHandle != nil && fn.Signature.Recv() != nil && la.spec.SelfHandle(fn) {
+		la.curSelf = &fakeHandle{fn: fn}
+		entry[la.curSelf] = stO
+		res.handles++
+	}
+	if la.spec.ParamsOwned && !(la.spec.ParamsBorrowed != nil && la.spec.ParamsBorrowed(fn)) {
+		for i, p := range fn.Params {
+			if i == 0 && fn.Signature.Recv() != nil {
+				continue
+			}
 			if la.isHandle(p.Type()) {
 				entry[p] = stO
 				res.handles++
@@ -247,6 +360,9 @@ func (la *linAnalysis) analyze(fn *ssa.Function) *linFuncResult {
 		if !ok {
 			return
 		}
+		if st == stB {
+			return // borrowed / shared value: no obligation either way
+		}
 		if final {
 			res.consumes++
 			if st&stM != 0 {
@@ -256,6 +372,24 @@ func (la *linAnalysis) analyze(fn *ssa.Function) *linFuncResult {
 		env[h] = stM
 	}
 
+	// the receiver itself handed on as a handle: every owned field (and the
+	// self handle) goes with it
+	consumeRecv := func(env linEnv, v ssa.Value, at token.Pos, what string) bool {
+		if !la.isReceiver(v) {
+			return false
+		}
+		if _, isIface := v.Type().Underlying().(*types.Interface); !isIface {
+			return false
+		}
+		for _, h := range la.curFields {
+			consume(env, h, at, what)
+		}
+		if la.curSelf != nil {
+			consume(env, la.curSelf, at, what)
+		}
+		return true
+	}
+	la.consumeRecv = consumeRecv
 	var transfer func(b *ssa.BasicBlock, env linEnv) (succEnvs []linEnv)
 	transfer = func(b *ssa.BasicBlock, env linEnv) []linEnv {
 		for _, ins := range b.Instrs {
@@ -274,7 +408,9 @@ func (la *linAnalysis) analyze(fn *ssa.Function) *linFuncResult {
 				}
 			case *ssa.Call:
 				la.call(fn, res, env, x, x.Common(), consume, final)
-				if la.isHandle(x.Type()) {
+				if la.isHandle(x.Type()) && la.spec.UntrackedResult != nil && x.Call.StaticCallee() != nil && la.spec.UntrackedResult(x.Call.StaticCallee()) {
+					env[x] = stB
+				} else if la.isHandle(x.Type()) {
 					if final {
 						res.handles++
 						if env[x]&stO != 0 {
@@ -300,7 +436,26 @@ func (la *linAnalysis) analyze(fn *ssa.Function) *linFuncResult {
 				}
 			case *ssa.Store:
 				vh := la.resolve(x.Val)
-				if la.isCell(x.Addr) {
+				if fh := la.recvFieldHandle(x.Addr); fh != nil {
+					// assignment to an owned receiver field
+					if final && env[fh]&stO != 0 && vh != ssa.Value(fh) {
+						report("overwrite", fh, x.Pos(), "field overwritten while it may still own a handle")
+					}
+					if vh != nil {
+						if st, ok := env[vh]; ok {
+							env[fh] = st
+							if vh != ssa.Value(fh) {
+								env[vh] = stM
+							}
+						} else {
+							env[fh] = stB
+						}
+					} else if isNilConst(x.Val) {
+						env[fh] = stN
+					} else {
+						env[fh] = stB
+					}
+				} else if la.isCell(x.Addr) {
 					cell := x.Addr
 					if final && env[cell]&stO != 0 && !(vh == cell) {
 						report("overwrite", cell, x.Pos(), "variable overwritten while it may still own a handle")
@@ -326,6 +481,8 @@ func (la *linAnalysis) analyze(fn *ssa.Function) *linFuncResult {
 						}
 						consume(env, vh, x.Pos(), "stored")
 					}
+				} else {
+					consumeRecv(env, x.Val, x.Pos(), "receiver stored")
 				}
 			case *ssa.MapUpdate:
 				consume(env, la.resolve(x.Value), x.Pos(), "stored in map")
@@ -341,12 +498,22 @@ func (la *linAnalysis) analyze(fn *ssa.Function) *linFuncResult {
 				}
 			case *ssa.Return:
 				for _, r := range x.Results {
-					consume(env, la.resolve(r), x.Pos(), "returned")
+					if h := la.resolve(r); h != nil {
+						consume(env, h, x.Pos(), "returned")
+					} else {
+						consumeRecv(env, r, x.Pos(), "receiver returned")
+					}
 				}
 				if final {
 					for h, st := range env {
 						if st&stO != 0 {
 							if _, isFV := h.(*ssa.FreeVar); isFV {
+								continue
+							}
+							if _, isFake := h.(*fakeHandle); isFake && la.spec.IsEntry != nil && !la.spec.IsEntry(fn) {
+								continue // helper: summarised below
+							}
+							if la.spec.ReturnKeeps != nil && la.spec.ReturnKeeps(fn, x, h) {
 								continue
 							}
 							report("leak", h, x.Pos(), "handle may still be owned at this return")
@@ -471,6 +638,41 @@ func (la *linAnalysis) analyze(fn *ssa.Function) *linFuncResult {
 			res.claims[i] = true
 		}
 	}
+	// helper summaries for receiver fields
+	if la.curFields != nil || la.curSelf != nil {
+		res.fieldMust = map[*types.Var]bool{}
+		exitState := map[*fakeHandle]lstate{}
+		nExits := 0
+		for bi, b := range fn.Blocks {
+			if in[bi] == nil || len(b.Instrs) == 0 {
+				continue
+			}
+			if _, ok := b.Instrs[len(b.Instrs)-1].(*ssa.Return); !ok {
+				continue
+			}
+			nExits++
+			e2 := in[bi].clone()
+			transfer(b, e2)
+			for _, h := range la.curFields {
+				exitState[h] |= e2[h]
+			}
+			if la.curSelf != nil {
+				exitState[la.curSelf] |= e2[la.curSelf]
+			}
+		}
+		for f, h := range la.curFields {
+			st := exitState[h]
+			if nExits > 0 && st&stO == 0 && st&stM != 0 {
+				res.fieldMust[f] = true
+			} else if st&stO != 0 && st&stM != 0 && la.spec.IsEntry != nil && !la.spec.IsEntry(fn) {
+				res.partial = append(res.partial, h)
+			}
+		}
+		if la.curSelf != nil {
+			st := exitState[la.curSelf]
+			res.selfMust = nExits > 0 && st&stO == 0 && st&stM != 0
+		}
+	}
 	// report pass
 	final = true
 	for bi, b := range fn.Blocks {
@@ -488,6 +690,9 @@ func (la *linAnalysis) analyze(fn *ssa.Function) *linFuncResult {
 				}
 			}
 		}
+	}
+	for _, h := range res.partial {
+		report("leak", h, fn.Pos(), "this helper consumes the receiver's "+h.Name()+" on some paths only")
 	}
 	sort.Slice(res.reports, func(i, j int) bool { return res.reports[i].at < res.reports[j].at })
 	return res
@@ -517,6 +722,17 @@ func (la *linAnalysis) refine(cond ssa.Value, val bool, env linEnv) {
 	case *ssa.UnOp:
 		if c.Op == token.NOT {
 			la.refine(c.X, !val, env)
+		}
+	case *ssa.Extract:
+		// shouldRetry of applyErrorHandler: when true the handler was not consumed
+		if cl, ok := c.Tuple.(*ssa.Call); ok && val && la.spec.ConditionalTransfer != nil && la.spec.ConditionalTransfer(cl.Common()) {
+			for _, a := range cl.Call.Args {
+				if h := la.resolve(a); h != nil {
+					if _, tracked := env[h]; tracked && la.isHandle(a.Type()) {
+						env[h] = stO
+					}
+				}
+			}
 		}
 	case *ssa.BinOp:
 		if c.Op != token.EQL && c.Op != token.NEQ {
@@ -579,6 +795,23 @@ func (la *linAnalysis) call(fn *ssa.Function, res *linFuncResult, env linEnv, ca
 			}
 		}
 	}
+	if callee := cc.StaticCallee(); callee != nil && callee != fn && (la.curFields != nil || la.curSelf != nil) && callee.Signature.Recv() != nil &&
+		len(cc.Args) > 0 && len(la.curFn.Params) > 0 && cc.Args[0] == ssa.Value(la.curFn.Params[0]) && callee.Blocks != nil {
+		myFields, mySelf := la.curFields, la.curSelf
+		cr := la.analyze(callee)
+		for f, must := range cr.fieldMust {
+			if h := myFields[f]; must && h != nil {
+				consume(env, h, pos, "consumed by helper "+callee.Name()+"()")
+			}
+		}
+		if cr.selfMust && mySelf != nil {
+			consume(env, mySelf, pos, "consumed by helper "+callee.Name()+"()")
+		}
+	}
+	if callee := cc.StaticCallee(); callee != nil && la.curSelf != nil && la.spec.SelfConsumer != nil && len(cc.Args) > 0 &&
+		cc.Args[0] == ssa.Value(la.curFn.Params[0]) && la.spec.SelfConsumer(callee) {
+		consume(env, la.curSelf, pos, "consumed by "+callee.Name()+"()")
+	}
 	sig := cc.Signature()
 	args := cc.Args
 	off := 0
@@ -605,6 +838,8 @@ func (la *linAnalysis) call(fn *ssa.Function, res *linFuncResult, env linEnv, ca
 			if _, ok := env[h]; ok {
 				consume(env, h, pos, "passed to "+calleeName(cc))
 			}
+		} else if la.consumeRecv != nil {
+			la.consumeRecv(env, args[i], pos, "receiver passed to "+calleeName(cc))
 		}
 	}
 }
